@@ -76,6 +76,8 @@ def valid(st, m, attrs):
     terms = []
     for fname, kind, param in tables.constraints(m):
         v = attrs[fname]
+        if v is None:
+            continue            # I5: an unset (None) argument is not validated (changelog 3.0.0a6); typed domains exclude it
         if kind == 'fixed':
             if isinstance(param, bool):
                 terms.append(neg(v) if isinstance(v, (bool, SBool)) else False)
